@@ -226,6 +226,21 @@ def run_accumulate_large(desc, ctx):
     ctx.count("large_fft_inputs")
     accumulate_case(ctx, inp, d, 6, False, "leadtime", "L1", "nc")
     accumulate_case(ctx, inp, d, 3, False, "time", "L2", "nc")
+    # a year of daily runs (and, transposed, a very long lead-time series) with week-long and longer windows: the shape for
+    # which SciPy's automatic method choice takes the FFT along the accumulated axis
+    for tag, nt, nl, axis in (("Y1", 400, 3, "time"), ("Y2", 2, 400, "leadtime")):
+        times = [10957 * 86400 + i * 86400 for i in range(nt)]
+        inp = gen.make_input(rng, "in", "nc", times, list(range(nl)), locs[:2], miss=0.0, vrange=(0, 9))
+        keys = list(inp["cells"])
+        for k in rng.sample(keys, 12):
+            inp["cells"][k]["obs"] = None
+        for k in rng.sample(keys, 12):
+            inp["cells"][k]["fcst"] = None
+        dd = os.path.join(ctx.workdir, "large" + tag)
+        os.makedirs(dd)
+        ctx.count("long_series_inputs")
+        accumulate_case(ctx, inp, dd, 7, False, axis, tag + "a", "nc")
+        accumulate_case(ctx, inp, dd, 30, False, axis, tag + "b", "nc")
 
 
 def run_ens2prob(desc, ctx):
